@@ -6488,6 +6488,10 @@ class Path(Shape, MutableSequence):
 
         Path objects reify perfectly.
         """
+        if isinstance(self.transform.value_trans_x(), Length) or isinstance(
+            self.transform.value_trans_y(), Length
+        ):
+            return self  # The translation is a length that could not be resolved.
         GraphicObject.reify(self)
         Transformable.reify(self)
         if isinstance(self.transform, Matrix):
@@ -6884,12 +6888,15 @@ class Rect(Shape):
             and scale_x != 0
             and scale_y != 0
         ):
+            try:
+                x = self.x * scale_x + translate_x
+                y = self.y * scale_y + translate_y
+            except ValueError:
+                return self  # A length that could not be resolved cannot be translated.
             GraphicObject.reify(self)
             Transformable.reify(self)
-            self.x *= scale_x
-            self.y *= scale_y
-            self.x += translate_x
-            self.y += translate_y
+            self.x = x
+            self.y = y
             self.transform *= Matrix.translate(-translate_x, -translate_y)
             self.rx = scale_x * self.rx
             self.ry = scale_y * self.ry
@@ -7104,12 +7111,15 @@ class _RoundShape(Shape):
             and scale_x != 0
             and scale_y != 0
         ):
+            try:
+                cx = self.cx * scale_x + translate_x
+                cy = self.cy * scale_y + translate_y
+            except ValueError:
+                return self  # A length that could not be resolved cannot be translated.
             GraphicObject.reify(self)
             Transformable.reify(self)
-            self.cx *= scale_x
-            self.cy *= scale_y
-            self.cx += translate_x
-            self.cy += translate_y
+            self.cx = cx
+            self.cy = cy
             self.transform *= Matrix.translate(-translate_x, -translate_y)
             self.rx = scale_x * self.rx
             self.ry = scale_y * self.ry
@@ -7442,19 +7452,18 @@ class SimpleLine(Shape):
 
         SimpleLines are perfectly reified.
         """
+        matrix = self.transform
+        try:
+            p1 = Point(self.x1, self.y1) * matrix
+            p2 = Point(self.x2, self.y2) * matrix
+        except ValueError:
+            return self  # A length that could not be resolved cannot be transformed.
         GraphicObject.reify(self)
         Transformable.reify(self)
-        matrix = self.transform
-        p = Point(self.x1, self.y1)
-        p *= matrix
-        self.x1 = p.x
-        self.y1 = p.y
-
-        p = Point(self.x2, self.y2)
-        p *= matrix
-        self.x2 = p.x
-        self.y2 = p.y
-
+        self.x1 = p1.x
+        self.y1 = p1.y
+        self.x2 = p2.x
+        self.y2 = p2.y
         matrix.reset()
         return self
 
@@ -7584,6 +7593,10 @@ class _Polyshape(Shape):
 
         Polyshapes are perfectly reified.
         """
+        if isinstance(self.transform.value_trans_x(), Length) or isinstance(
+            self.transform.value_trans_y(), Length
+        ):
+            return self  # The translation is a length that could not be resolved.
         GraphicObject.reify(self)
         Transformable.reify(self)
         matrix = self.transform
